@@ -219,4 +219,17 @@ func init() {
 	for _, pid := range []string{"C06", "C09", "C10", "C13"} {
 		registry[pid] = CheckSpec{Property: pid, Harnesses: []HarnessSpec{svc}, Assumptions: svcAssume, Outside: svcOut}
 	}
+
+	registry["C19"] = CheckSpec{Property: "C19",
+		Harnesses: []HarnessSpec{
+			{Pkg: "cmd/pkappa2", Func: "ZZ_C19_Upload", Quick: tier(map[string]int{"maxfree": 5}), Thorough: tier(map[string]int{"maxfree": 7}),
+				Bounds: "the real upload handler closure of setupRouter (captured at route registration) with the routed parameter = 1..maxfree arbitrary symbolic bytes + .pcap/.pcapng; existing / new target file"},
+			{Pkg: "cmd/pkappa2", Func: "ZZ_C19_Upload", Desc: "names with an escaped separator", Quick: tier(map[string]int{"escapedsep": 1}),
+				Bounds: "routed parameter = 2 arbitrary bytes + one of %2F %2f %5C %252F %2E + 1 arbitrary byte + extension"},
+			{Pkg: "cmd/pkappa2", Func: "ZZ_C19_Download", Quick: tier(map[string]int{"maxfree": 6}), Thorough: tier(map[string]int{"maxfree": 8}),
+				Desc: "no-native", Bounds: "the real download handler closure; parameter assumed to satisfy the route pattern (no / or \\)"},
+		},
+		Assumptions: []string{"chi routing is not executed in the engine: route registration is intercepted to capture the handler closures, chi.URLParam returns the symbolic string (the string a request line is routed to is decided by chi's percent-decoding and matching, outside)", "os.OpenFile / http.ServeFile / Manager.ImportPcaps are recording stubs; path/filepath is the real interpreted code", "native replay sends the same name through the real router, handler and Manager and compares the directory tree outside the capture directory before and after"},
+		Outside: []string{"two concurrent uploads of the same name (kernel O_EXCL atomicity)", "chi's routing and percent-decoding", "http.ServeFile's own path checks", "names longer than maxfree+7 bytes"},
+	}
 }
